@@ -40,6 +40,25 @@ struct CaseInfo {
   void set_digest(uint64_t d) { has_digest = true; digest = d; }
 };
 
+// Runs f on a fresh thread and re-throws what it threw. The library keeps thread-local scratch (matrix holders, estimator
+// RNG, expectation-value buffers, block caches); a case that must be a pure function of its bytes - so that a shrunk failure
+// reproduces in a new process - executes on a thread of its own, where all of that state starts from scratch.
+#include <thread>
+template <class F>
+inline void in_fresh_thread(F&& f) {
+  bool failed = false, other = false, badalloc = false; std::string sig, msg;
+  std::thread t([&] {
+    try { f(); }
+    catch (const Fail& x) { failed = true; sig = x.sig; msg = x.msg; }
+    catch (const std::bad_alloc&) { badalloc = true; }
+    catch (const std::exception& e) { other = true; msg = e.what(); }
+  });
+  t.join();
+  if (failed) throw Fail(sig, msg);
+  if (badalloc) throw std::bad_alloc();
+  if (other) throw std::runtime_error(msg);
+}
+
 // ---- provided by each harness ---------------------------------------------------------------
 extern const char* PROPERTY;
 extern const int LMAX;                      // rapidcheck size (max byte-string length)
